@@ -741,6 +741,11 @@ var c04AssertAllowed = map[string]string{
 }
 
 func c04R4(p *core.Program, r *core.Report, fns []*ssa.Function) {
+	uncheckedAsserts(p, r, fns, "R4", c04AssertAllowed, "evaluation code")
+}
+
+// uncheckedAsserts enumerates x.(T) without comma-ok in fns and discharges each by a guard idiom or the table.
+func uncheckedAsserts(p *core.Program, r *core.Report, fns []*ssa.Function, rule string, allowed map[string]string, what string) {
 	n := 0
 	perFn := map[string]int{}
 	for _, fn := range fns {
@@ -761,21 +766,21 @@ func c04R4(p *core.Program, r *core.Report, fns []*ssa.Function) {
 			perFn[base]++
 			key := fmt.Sprintf("%s/(%s)#%d", base, core.ShortType(ta.AssertedType), perFn[base])
 			if g := typeGuard(ta); g != "" {
-				r.OK("R4", key, p.Pos(ta.Pos()), "guarded: "+g)
+				r.OK(rule, key, p.Pos(ta.Pos()), "guarded: "+g)
 				return
 			}
 			if is, bad := sameTypeMethodAssert(p, ta); is {
-				r.Check(bad == "", "R4", key, p.Pos(ta.Pos()), "every call site passes the receiver's own type or is guarded by a dynamic type-equality test", bad)
+				r.Check(bad == "", rule, key, p.Pos(ta.Pos()), "every call site passes the receiver's own type or is guarded by a dynamic type-equality test", bad)
 				return
 			}
-			if reason, ok := c04AssertAllowed[key]; ok {
-				r.OK("R4", key, p.Pos(ta.Pos()), "listed: "+reason)
+			if reason, ok := allowed[key]; ok {
+				r.OK(rule, key, p.Pos(ta.Pos()), "listed: "+reason)
 				return
 			}
-			r.Bad("R4", key, p.Pos(ta.Pos()), "unchecked type assertion on "+core.ShortType(ta.X.Type())+" in evaluation code: a value of another dynamic type panics")
+			r.Bad(rule, key, p.Pos(ta.Pos()), "unchecked type assertion on "+core.ShortType(ta.X.Type())+" in "+what+": a value of another dynamic type panics")
 		})
 	}
-	r.Count("unchecked_type_assertions", n)
+	r.Count("unchecked_type_assertions_"+rule, n)
 }
 
 // typeGuard: the asserted value was tested by a dominating comma-ok assertion / type switch arm to the same type.
